@@ -48,6 +48,7 @@ func createASTTypeExpr(pkg string, t types.Type, varPool *VarPool, imports map[s
 					IsDefaultName: newPkgName == pkgName,
 					IsUsed:        false, // Will be marked during code generation
 				}
+				pkgName = newPkgName
 			}
 
 			expr = &ast.SelectorExpr{
@@ -76,6 +77,7 @@ func createASTTypeExpr(pkg string, t types.Type, varPool *VarPool, imports map[s
 					IsDefaultName: newPkgName == pkgName,
 					IsUsed:        false, // Will be marked during code generation
 				}
+				pkgName = newPkgName
 			}
 
 			expr = &ast.SelectorExpr{
